@@ -132,6 +132,11 @@ type Leg struct {
 	Err        error
 	Panic      string
 	Stack      string
+	// Aborted: an injected dependency fault fired and the call failed. The node treats that as a
+	// processing failure (the state is rolled back and the transaction / message is processed again
+	// later), not as a rejection by the function: no refund, the message stays in flight.
+	Aborted    bool
+	FaultFired bool
 	OK         bool // committed
 	NoFunc     bool // function name not in the container
 	Inactive   bool
@@ -161,6 +166,9 @@ type Node struct {
 	RecordPayable bool
 	// PreRun is called with the sequence number of the leg about to execute (fault plans).
 	PreRun func(seq int)
+	// AbortOnFault: a call that fails because an injected dependency fault fired is an aborted
+	// processing attempt (see Leg.Aborted) instead of a rejection.
+	AbortOnFault bool
 }
 
 func New(w *world.World) *Node {
@@ -212,6 +220,12 @@ func buildInput(c Call) *builtInput {
 	}
 	args := make([][]byte, len(c.Args), len(c.Args)+2)
 	for i, a := range c.Args {
+		if a == nil || (len(a) == 0 && i%2 == 1) {
+			// an empty argument is as legitimately a nil slice as an empty one (the VM hands over
+			// either): odd positions get nil, even positions an empty slice of the backing array
+			off += spare
+			continue
+		}
 		args[i] = place(a)
 	}
 	caller := place(c.Caller)
@@ -423,7 +437,11 @@ func (n *Node) ExecSenderAt(shard uint32, c Call, dstLocal bool) *Leg {
 func (n *Node) Deliver(i int) *Leg {
 	m := n.Pool[i]
 	n.Pool = append(n.Pool[:i:i], n.Pool[i+1:]...)
-	return n.DeliverMsg(m)
+	l := n.DeliverMsg(m)
+	if l != nil && l.Aborted {
+		n.Pool = append(n.Pool, m) // processed again later
+	}
+	return l
 }
 
 // DeliverMsg executes a message without touching the pool (used for duplicates).
@@ -474,6 +492,10 @@ func (n *Node) run(side int, shard uint32, c Call, msg *Message, snd, dst *world
 	}
 	bi := buildInput(c)
 	leg.Input = bi.in
+	firedBefore := 0
+	if w.Fault != nil {
+		firedBefore = len(w.Fault.Fired)
+	}
 	w.Log = w.Log[:0]
 	w.Logging = true
 	w.CurFunc = c.Func
@@ -515,6 +537,13 @@ func (n *Node) run(side int, shard uint32, c Call, msg *Message, snd, dst *world
 	discarded := sh.EndLeg(owned...)
 
 	leg.OK = leg.Err == nil && leg.Panic == "" && leg.Out != nil
+	leg.FaultFired = w.Fault != nil && len(w.Fault.Fired) > firedBefore
+	if n.AbortOnFault && leg.FaultFired && !leg.OK && leg.Panic == "" {
+		leg.Aborted = true
+		w.Restore(leg.Pre)
+		n.notify(leg)
+		return leg
+	}
 	if leg.OK {
 		for _, addr := range discarded {
 			w.RestoreAccount(leg.Pre, shard, addr)
